@@ -2,6 +2,7 @@ import PrysmVerif.Generated.C16
 import PrysmVerif.Lemmas.C16Expose
 import PrysmVerif.Lemmas.C16BinL
 import PrysmVerif.Lemmas.C16Safe
+import PrysmVerif.Lemmas.C16Malvar
 import Mathlib.Data.Rat.Floor
 /-!
 # C16 — sensor model: DN stay in range; binning and mosaicking conserve signal
@@ -413,6 +414,45 @@ theorem malvar_constant_level (cfa : Cfa) (m n : ℕ) (v : Rat) (ch : Chan) (R C
     rcases hk with rfl | rfl | rfl | rfl <;>
       simp [convolve5, Num.sumTo, kernelAt, Model.C16.kernelGAtRB, Model.C16.kernelRAtGInRB, Model.C16.kernelRAtGInBR,
         Model.C16.kernelRAtBInBB, Model.C16.malvarDivisor, Num.ofInt] <;> ring
+
+/-- the mosaic of a spatially uniform colour `col` under the plane table `rt`: each site holds the level of the colour
+that lives there -/
+def colourMosaic (rt : Site → Plane) (col : Chan → Rat) : ℕ → ℕ → Rat :=
+  fun R C => col (rt (siteOfParity R C)).chan
+
+theorem colourMosaic_parity (rt : Site → Plane) (col : Chan → Rat) :
+    colourMosaic rt col = parityImg (fun p q => col (rt (siteOfParity p q)).chan) := by
+  funext R C
+  have hR : R % 2 = 0 ∨ R % 2 = 1 := by omega
+  have hC : C % 2 = 0 ∨ C % 2 = 1 := by omega
+  rcases hR with hR | hR <;> rcases hC with hC | hC <;> simp [colourMosaic, parityImg, siteOfParity, hR, hC]
+
+/-- Malvar demosaicking recovers a spatially uniform COLOUR exactly: the mosaic of a scene of colour `(r, g, b)` (three
+arbitrary, different levels) demosaicks to `(r, g, b)` at every sample at least two samples from the border, in every
+channel, for every image size and both layouts — this pins which filtered image (`c1`: red neighbours left/right, `c2`:
+above/below, `c3`: diagonal) the generated source table uses at which site, not only the native sites.  (Within two
+samples of the border `ndimage`'s `reflect` rule breaks the colour pattern and nothing is claimed.) -/
+theorem malvar_uniform_colour (cfa : Cfa) (m n : ℕ) (col : Chan → Rat) (ch : Chan) (R C : ℕ)
+    (hR2 : 2 ≤ R) (hRm : R + 2 < m) (hC2 : 2 ≤ C) (hCn : C + 2 < n) :
+    malvar Generated.C16.siteSlices (Generated.C16.malvarSrc cfa) m n
+      (colourMosaic (Generated.C16.recompPlane cfa) col) ch R C = col ch := by
+  unfold malvar
+  rw [siteAt_eq, colourMosaic_parity]
+  simp only [convolve5_parity _ _ _ _ _ _ _ hR2 hRm hC2 hCn]
+  have e : ∀ (x a : ℕ), (x + a) % 2 = (x % 2 + a % 2) % 2 := fun x a => Nat.add_mod x a 2
+  have hR : R % 2 = 0 ∨ R % 2 = 1 := by omega
+  have hC : C % 2 = 0 ∨ C % 2 = 1 := by omega
+  to_model
+  rcases hR with hR | hR <;> rcases hC with hC | hC <;> cases cfa <;> cases ch <;>
+    simp [parityImg, e, hR, hC, siteOfParity, Model.C16.malvarSrc, Model.C16.srcKernel, Model.C16.recompPlane, Plane.chan,
+      Num.sumTo, kernelAt, Model.C16.kernelGAtRB, Model.C16.kernelRAtGInRB, Model.C16.kernelRAtGInBR,
+      Model.C16.kernelRAtBInBB, Model.C16.malvarDivisor, Num.ofInt] <;> ring
+
+/-- non-vacuity: the centre of a 5 × 5 mosaic is an interior sample -/
+example (cfa : Cfa) (col : Chan → Rat) (ch : Chan) :
+    malvar Generated.C16.siteSlices (Generated.C16.malvarSrc cfa) 5 5
+      (colourMosaic (Generated.C16.recompPlane cfa) col) ch 2 2 = col ch :=
+  malvar_uniform_colour cfa 5 5 col ch 2 2 (by norm_num) (by norm_num) (by norm_num) (by norm_num)
 
 /-- safe white balance (UNIT nominal gains only — with other gains `safe` promises nothing and nothing is claimed):
 after dividing the gains by the generated limiting ratio, a plane scaled with unit
